@@ -261,12 +261,13 @@ func (h *SexpHash) TypeCheckField(key Sexp, val Sexp) error {
 	case *SexpSymbol:
 		keySym = ks
 		wasSym = true
-	default:
-		return KeyNotSymbol
 	}
 	p := h.GoStructFactory
 	if p == nil {
 		//Q("SexpHash.TypeCheckField() sees nil GoStructFactory, bailing out.")
+		if !wasSym {
+			return KeyNotSymbol
+		}
 		return nil
 	} else {
 		//Q("SexpHash.TypeCheckField() sees h.GoStructFactory = '%#v'", h.GoStructFactory)
@@ -294,8 +295,23 @@ func (h *SexpHash) TypeCheckField(key Sexp, val Sexp) error {
 				p = h.GoStructFactory
 			}
 		} else {
+			if !wasSym {
+				return KeyNotSymbol
+			}
 			return nil
 		}
+	}
+
+	// a declared struct only has the fields of its declaration, and
+	// those are named by symbols: a string or number key would add an
+	// undeclared, unchecked member to the instance.
+	if !wasSym {
+		if h.TypeName != "hash" && h.TypeName != "field" && p != nil &&
+			p.UserStructDefn != nil && p.UserStructDefn.FieldType != nil {
+			return fmt.Errorf("%s has no field '%s': fields of a declared struct are named by symbols",
+				p.UserStructDefn.Name, key.SexpString(nil))
+		}
+		return KeyNotSymbol
 	}
 
 	// type-check record updates here, if we are a record with a
